@@ -141,8 +141,10 @@ def _ball(rec, obj, name, sig):
         if hasattr(type(obj), rname):
             r = get(obj, rname)
             if not isinstance(r, Raised):
-                tol = 1e-5 if name in ("minimal_bounding_sphere", "minimal_bounding_circle") else 1e-12
-                rec.close("radius_getter_agrees", r, b.radius, tol * abs(b.radius), dict(sig, prop=name))
+                if name in ("minimal_bounding_sphere", "minimal_bounding_circle") and hasattr(type(obj), "vertices"):
+                    pass  # two independent randomised miniball calls: each is judged against the exact oracle in _min_ball
+                else:
+                    rec.close("radius_getter_agrees", r, b.radius, 1e-12 * abs(b.radius), dict(sig, prop=name))
     return b if ok else Raised(ValueError("not a ball"))
 
 
@@ -161,6 +163,9 @@ def _min_ball(rec, obj, name, V, sig):
         return ("too_small" if not contains else ("too_large" if bb.radius > R * (1 + 1e-5) else "ok"))
 
     v = verdict(b)
+    rg = get(obj, name + "_radius")
+    if v == "ok" and not isinstance(rg, Raised) and abs(float(rg) - R) > 1e-5 * R:
+        v = "too_large" if float(rg) > R else "too_small"
     if v != "ok":
         good = 0
         for sd in range(5):
